@@ -118,7 +118,14 @@ def execute(rec: Recorder, cache, data: bytes, label: str, loop=None, mode: str 
         outcome = "memory"
         rec.violation("memory-error", f"{label}: MemoryError ({mon.exc_site(e)})", wit)
     except Exception as e:
-        if allowed_exception(e):
+        import dns.exception
+
+        if isinstance(e, dns.exception.DNSException) and mon.exc_site(e).startswith("_dns."):
+            # the library went on to discover a domain controller and the resolver refused the name taken from the
+            # blob (label too long, empty label, ...): same outcome class as "tries to contact a domain controller"
+            outcome = "needs-network"
+            rec.count("discovery_name_rejected_by_resolver")
+        elif allowed_exception(e):
             outcome = "deliberate"
             rec.count("outcome_deliberate_error")
             rec.seen("error_types", type(e).__name__)
